@@ -19,6 +19,8 @@ import (
 	"github.com/buildkite/go-pipeline/warning"
 	"gopkg.in/yaml.v3"
 
+	"github.com/buildkite/interpolate"
+
 	"verifharness/core"
 	"verifharness/dump"
 	"verifharness/gen"
@@ -42,7 +44,7 @@ func c02Str(r *core.Rand) string {
 // c02InterpEnv: the environment of the interpolate-first third. The VERIF_K* variables hold names of declared
 // step fields: a key written "${VERIF_KP}" becomes the unknown key "plugins" (finding F21).
 func c02InterpEnv() mapEnv {
-	return mapEnv{"FOO": "foo-value", "BAR": "", "VERIF_KP": "plugins", "VERIF_KE": "env", "VERIF_KM": "matrix", "VERIF_KC": "commands", "VERIF_KL": "label"}
+	return mapEnv{"FOO": "foo-value", "BAR": "", "VERIF_KP": "plugins", "VERIF_KE": "env", "VERIF_KM": "matrix", "VERIF_KC": "commands", "VERIF_KL": "label", "VERIF_KCMD": "command", "VERIF_KT": "type"}
 }
 
 // injectFieldNamedKey adds, to the first command-step mapping of the document that has room for it, an unknown
@@ -68,8 +70,21 @@ func injectFieldNamedKey(r *core.Rand, doc any) bool {
 	}
 	for _, st := range steps {
 		m, ok := st.(*ordered.MapSA)
-		if !ok || !m.Contains("command") {
+		if !ok {
 			continue
+		}
+		if !m.Contains("command") {
+			// kind redirection: a wait / block / trigger / group mapping gains the key `command`
+			if r.Intn(3) == 0 && !m.Contains("commands") && !m.Contains("plugins") && !m.Contains("type") {
+				m.Set("${VERIF_KCMD}", "echo smuggled")
+				return true
+			}
+			continue
+		}
+		if r.Intn(4) == 0 && !m.Contains("type") {
+			// ...or a command step gains `type: wait`
+			m.Set("${VERIF_KT}", "wait")
+			return true
 		}
 		cand := cands[r.Intn(len(cands))]
 		if m.Contains(cand.field) {
@@ -81,8 +96,46 @@ func injectFieldNamedKey(r *core.Rand, doc any) bool {
 	return false
 }
 
-// inlineShadowsField: some struct of the step tree holds, among its unknown fields, a key that is the yaml key (or
-// an alias) of one of its own declared fields — impossible after Parse, reachable through interpolated keys.
+// reservedKeys: names the parser gives a meaning to at step level or inside a matrix / adjustment / cache.
+var reservedKeys = map[string]bool{"command": true, "commands": true, "plugins": true, "env": true, "matrix": true, "cache": true, "signature": true,
+	"key": true, "label": true, "name": true, "id": true, "identifier": true, "type": true, "wait": true, "waiter": true, "block": true, "input": true,
+	"manual": true, "trigger": true, "group": true, "steps": true, "setup": true, "adjustments": true, "with": true, "skip": true, "paths": true,
+	"size": true, "disabled": true}
+
+// keyBecomesReserved: some mapping key of the source document is not a reserved name as written but expands to
+// one under the interpolate-first environment (the input class of finding F21, kind redirection included).
+func keyBecomesReserved(src []byte) bool {
+	tree, err := decodeTree(src)
+	if err != nil {
+		return false
+	}
+	env := c02InterpEnv()
+	found := false
+	var walk func(v any)
+	walk = func(v any) {
+		switch t := v.(type) {
+		case []any:
+			for _, e := range t {
+				walk(e)
+			}
+		case *ordered.MapSA:
+			t.Range(func(k string, e any) error {
+				if strings.Contains(k, "$") && !reservedKeys[k] {
+					if out, err := interpolate.Interpolate(env, k); err == nil && reservedKeys[out] {
+						found = true
+					}
+				}
+				walk(e)
+				return nil
+			})
+		}
+	}
+	walk(tree)
+	return found
+}
+
+// inlineShadowsField: some struct of the step tree holds, among its unknown fields, a key that is the yaml key
+// of one of its own declared fields — impossible after Parse, reachable through interpolated keys.
 func inlineShadowsField(ss pipeline.Steps) bool {
 	declared := func(v any) map[string]bool {
 		out := map[string]bool{}
@@ -95,11 +148,7 @@ func inlineShadowsField(ss pipeline.Steps) bool {
 			if tag != "" && tag != "-" {
 				out[tag] = true
 			}
-			for _, a := range strings.Split(t.Field(i).Tag.Get("aliases"), ",") {
-				if a != "" {
-					out[a] = true
-				}
-			}
+			// (aliases are not counted: next to its primary key an alias legitimately stays among the unknown fields)
 		}
 		return out
 	}
@@ -246,7 +295,7 @@ func runC02(c *ctx) error {
 			venv["BUILDKITE_UNRELATED"] = "1"
 			// F21: after interpolation an unknown key may carry the name of a declared field of its struct
 			shadowKnown := ""
-			if interpolateFirst && inlineShadowsField(p.Steps) {
+			if interpolateFirst && (inlineShadowsField(p.Steps) || keyBecomesReserved(src)) {
 				c.res.Hist("interpolated.unknown-key-shadows-a-field")
 				if id, ok := c.known.has("interpolated-key-equals-declared-field"); ok {
 					shadowKnown = id
